@@ -108,7 +108,7 @@ def run_cfg(f, rid, schedule, finish, seed):
 
 GUAR = {'NoDup': 'G1', 'KnownStacks': 'G1', 'DoneKnown': 'G1', 'AppendOnly': 'G1', 'Snap': 'G1', 'NamesAgree': 'G1', 'FreeSnap': 'G1',
         'Bounds': 'G2', 'Quiescent': 'G2', 'NoAlien': 'G2', 'PtrLive': 'G2', 'Monotone': 'G2',
-        'Read': 'G3', 'ReadStack': 'G3', 'ReadNoEffect': 'G3'}
+        'Read': 'G3', 'ReadStack': 'G3', 'ReadNoEffect': 'G3', 'FreeRead': 'G3', 'Listed': 'G2'}
 
 STEP_KEYS = ('run', 'i', 't', 'stacks', 'smu', 'nxt', 'head', 'cur', 'clock', 'hp', 'mem', 'disk', 'closed', 'begun', 'done',
              'snap', 'alien', 'malformed', 'nc', 'ns')
@@ -148,7 +148,8 @@ def judge_obs(ctx, lines, describe, label):
     return bad_all
 
 
-def run_conc(ctx):
+def conc_prepare(ctx):
+    """TLC side: exhaustive runs (invariants + witness schedules), simulate walks, harness-chosen schedules."""
     small, big = families()
     fams = small + (big if ctx.thorough() else [])
     rng = random.Random(ctx.seed)
@@ -204,8 +205,17 @@ def run_conc(ctx):
         add_run(f, [], 'seq', 'seq')
         add_run(f, [], 'rr', 'rr')
         add_run(f, [], 'stick', 'stick')
+    return dict(fams=fams, runs=runs, runfam=runfam, model_results=model_results)
+
+
+def conc_execute(ctx, prep):
+    fams, runs, runfam, model_results = prep['fams'], prep['runs'], prep['runfam'], prep['model_results']
     ctx.log('X03 conc: runs to replay:', len(runs))
     recs, rc, out = ctx.run_harness('./internal/counter', 'TestVerifX03Stack', inp={'runs': runs}, timeout=3000)
+    if any(r.get('kind') == 'calfail' for r in recs):
+        ctx.violation('X03:G1:calibration:scheduled', {},
+                      'G1: one Inc from each call site of a fresh depth-2 stack counter does not leave exactly one remembered stack (of two program counters) per site')
+        return dict(runs=0, accepted=0, diverged=0)
     results = {r['run']: r for r in recs if r.get('kind') == 'result'}
     if len(results) != len(runs):
         raise Infra('X03 stack harness returned %d results for %d runs\n%s' % (len(results), len(runs), out[-3000:]))
@@ -242,7 +252,21 @@ def run_conc(ctx):
             lines.append(obs_line(dict(res, i=res['steps'] + 1, t='final'), final=True, res=res))
             index.append(kx)
     seen = set()
-    for (idx, clause) in judge_obs(ctx, lines, None, 'CtrApiObs'):
+    import threading
+    jres = {}
+
+    def jthread():
+        try:
+            jres['bad'] = judge_obs(ctx, lines, None, 'CtrApiObs')
+        except BaseException as e:  # noqa: BLE001
+            jres['err'] = e
+    jth = threading.Thread(target=jthread)
+    jth.start()
+    conf = conformance(ctx, fams, runs, runfam, results, obs)
+    jth.join()
+    if 'err' in jres:
+        raise jres['err']
+    for (idx, clause) in jres['bad']:
         o = lines[idx]
         kx = index[idx]
         if (kx, clause) in seen:
@@ -257,7 +281,22 @@ def run_conc(ctx):
                           (' rd=%s rderr=%s rs=%s rserr=%r' % (o.get('rd'), o.get('rderr'), o.get('rs'), o.get('rserr'))) if o.get('reads') else ''))
     ctx.cov['conc_observed_states_checked'] = len(lines)
 
-    # (c) conformance: every recorded trace must be a behaviour of CtrApi.tla
+    accepted, diverged = conf
+    ctx.cov['traces_validated_against_impl'] += accepted
+    ctx.cov['divergences'] += len(diverged)
+    ctx.cov['conc_divergence_samples'] = diverged[:5]
+    for d in diverged[:10]:
+        ctx.warn('MODEL-DIVERGENCE %s' % json.dumps(d)[:700])
+    ctx.cov['conc_model_results'] = model_results
+    ctx.cov['distinct_nontrivial'] += len({(r['family'], tuple(results[r['id']].get('schedule', []))) for r in runs})
+    if runs:
+        ctx.sample({'part': 'conc', 'family': runs[0]['family'], 'why': runfam[1][1], 'schedule': results[1].get('schedule', [])[:60],
+                    'status': results[1]['status'], 'final_stacks': results[1].get('stacks'), 'final_disk': results[1].get('disk')})
+    return dict(runs=len(runs), accepted=accepted, diverged=len(diverged))
+
+
+def conformance(ctx, fams, runs, runfam, results, obs):
+    """(c) conformance: every recorded trace must be a behaviour of CtrApi.tla"""
     accepted, diverged = 0, []
     byfam = {}
     for kx in sorted(obs):
@@ -275,13 +314,20 @@ def run_conc(ctx):
                                                     'x03trace.ndjson': ndjson_text(tl)},
                                              cfg_text=mc_cfg(f, spec='TSpec', invariants=['Conform']).replace('CHECK_DEADLOCK FALSE', 'CHECK_DEADLOCK TRUE'),
                                              workers=1, label='CtrApiTrace[%s]' % f['name'], count=False, timeout=1500))
+    firsts = {}
+    fj = [(f, trace_job(f, list(byfam.get(f['name'], [])))) for f in fams if byfam.get(f['name'])]
+    for (f, (tl, job)), r in zip(fj, ctx.tlc_many([j for (_f, (_tl, j)) in fj], par=8)):
+        firsts[f['name']] = (tl, r)
     for f in fams:
         remaining = list(byfam.get(f['name'], []))
         guard = 0
         while remaining and guard < 8:
             guard += 1
-            tl, job = trace_job(f, remaining)
-            r = ctx.tlc(*job[0], **job[1])
+            if guard == 1 and f['name'] in firsts:
+                tl, r = firsts[f['name']]
+            else:
+                tl, job = trace_job(f, remaining)
+                r = ctx.tlc(*job[0], **job[1])
             if r.ok:
                 accepted += len(remaining)
                 remaining = []
@@ -299,14 +345,4 @@ def run_conc(ctx):
                 remaining = remaining[p + 1:]
             else:
                 raise Infra('CtrApiTrace[%s]: %s\n%s' % (f['name'], r.error, r.out[-2500:]))
-    ctx.cov['traces_validated_against_impl'] += accepted
-    ctx.cov['divergences'] += len(diverged)
-    ctx.cov['conc_divergence_samples'] = diverged[:5]
-    for d in diverged[:10]:
-        ctx.warn('MODEL-DIVERGENCE %s' % json.dumps(d)[:700])
-    ctx.cov['conc_model_results'] = model_results
-    ctx.cov['distinct_nontrivial'] += len({(r['family'], tuple(results[r['id']].get('schedule', []))) for r in runs})
-    if runs:
-        ctx.sample({'part': 'conc', 'family': runs[0]['family'], 'why': runfam[1][1], 'schedule': results[1].get('schedule', [])[:60],
-                    'status': results[1]['status'], 'final_stacks': results[1].get('stacks'), 'final_disk': results[1].get('disk')})
-    return dict(runs=len(runs), accepted=accepted, diverged=len(diverged))
+    return accepted, diverged
